@@ -69,6 +69,8 @@ def run(tier):
     if tier == "quick":
         # a slice of the scalar-multiplication cases (every routine and width, scalars 0, 1 and the all-ones value): empty and full digit buffers
         plan.append((("drv_curve", "Gen_Curve", {"WHAT": "scalars", "TIER": "quick", "_slice": "edge-scalars"}), "asm-san"))
+        # pairing products taken more than once over the same pair records (prepared operands are walked with a cursor kept in the record)
+        plan.append((("drv_pairing", "Gen_Pairing", {"WHAT": "sum", "_slice": "reused-pairs"}), "asm-san"))
     for (drv, gen, env), cfg in plan:
         k = (gen, json.dumps(env, sort_keys=True))
         if k not in gen_cache:
@@ -79,6 +81,10 @@ def run(tier):
                     kk = e.get("k")
                     return e.get("op") in ("mul.gen", "mul.fast", "wnaf.recode") and isinstance(kk, list) and (not any(kk) or kk == [1] + [0] * (len(kk) - 1) or all(x == 255 for x in kk))
                 rows = [e for e in vlib.read_ndjson(gen_cache[k]) if edge(e)]
+                sl = gen_cache[k] + ".slice"; vlib.write_ndjson(sl, rows); gen_cache[k] = sl
+            if env.get("_slice") == "reused-pairs":
+                rows = [e for e in vlib.read_ndjson(gen_cache[k]) if e.get("op") == "pair.sum" and e.get("rounds", 1) >= 2
+                        and any(x.get("kind") == "prepared" for x in e.get("entries", []))][:16]
                 sl = gen_cache[k] + ".slice"; vlib.write_ndjson(sl, rows); gen_cache[k] = sl
         observe(run, drv, cfg, gen_cache[k], reports); nobs += 1
         run.classes.add(("sanitizer-run", drv, cfg, json.dumps(env, sort_keys=True)))
